@@ -204,6 +204,12 @@ def gen_C16(tier, rng):
             ins.append(("op", ("reshape", t), [0]))
             ins.append(("eq", 0, len(ins) - 1))
             ins.append(("eq", len(ins) - 2, 1))
+        # the same values under the same dimensions padded with unit dimensions (front, back): never equal
+        for t2 in ([1] + s, s + [1], [1, 1] + s):
+            if len(t2) <= 6:
+                ins.append(("leaf", False, t2, vals))
+                w_ = len(ins) - 1
+                ins += [("eq", 0, w_), ("eq", w_, 0), ("abseq", 0, w_), ("releq", w_, 0)]
         # the approx-crate comparisons with default tolerances: on values that are identical or differ by a whole
         # unit they must agree with ==, dimensions included
         for (a, b) in [(0, 1), (0, 2), (1, 2), (0, 0)] + ([(0, alt_at), (alt_at, 1)] if alts else []):
@@ -692,6 +698,9 @@ def gen_C07(tier, rng):
         pos = [abs(x) for x in xs]
         ins = [("leaf", k % 2 == 1, [n], xs), ("op", ("relu",), [0]), ("op", ("neg",), [0]), ("op", ("scale", 3.0), [0]),
                ("leaf", False, [n], pos), ("op", ("powf", 0.5), [4]), ("op", ("sum", 1), [4]), ("op", ("ln",), [4])]
+        # positive subnormal numbers are inside ln's domain (and powf's)
+        sub = [rng.choice([2.2e-308, 1e-310, 3e-320, 5e-324, 4.9e-322]) for _ in range(n)]
+        ins += [("leaf", False, [n], sub), ("op", ("ln",), [len(ins)]), ("op", ("powf", 0.5), [len(ins)])]
         if k % 2 == 1:
             ins += [("backward", 1, None), ("grad", 0)]
         c = case("tiny", ins, "extreme_values:tiny_magnitudes", rtol=1e-9)
@@ -1284,6 +1293,7 @@ def gen_C13(tier, rng):
                     ins.append(("leaf", True, d, vals))
                     params.append(len(ins) - 1)
                 rounds = rng.choice([1, 1, 2, 3])
+                flags = [1] * n
                 expect = []
                 cur = [list(i[3]) for i in ins]
                 for rd in range(rounds):
@@ -1303,13 +1313,20 @@ def gen_C13(tier, rng):
                     order = list(range(n))
                     if rng.random() < 0.3:
                         rng.shuffle(order)
+                    # a parameter switched off (stop_tracking) between its backward pass and the update: if it
+                    # holds a gradient it is stepped and re-bound TRACKED all the same; if not it is left as it is
+                    for j in range(n):
+                        if k % 4 == 1 and rng.random() < 0.4:
+                            ins.append(("stop", params[j]))
+                            flags[j] = 0
                     ins.append(("update", lr, [params[j] for j in order]))
                     for j in range(n):
                         if grads[j] is not None:
                             cur[j] = [x - lr * g for x, g in zip(cur[j], grads[j])]
+                            flags[j] = 1
                     for j in range(n):
                         ins.append(("obs", params[j]))
-                        expect.append((len(ins) - 1, dims[j], list(cur[j])))
+                        expect.append((len(ins) - 1, dims[j], list(cur[j]), flags[j]))
                 c = case("gd", ins, "params%d:%s" % (n, "same_shape" if same else "mixed"))
                 c["gd_expect"] = expect
                 cases.append(c)
@@ -1367,17 +1384,19 @@ def post_gd_spec(cases, rust, model):
     for i, (c, r) in enumerate(zip(cases, rust)):
         if "gd_expect" not in c:
             continue
-        for at, dims, vals in c["gd_expect"]:
+        for ent in c["gd_expect"]:
+            at, dims, vals = ent[:3]
+            flag = ent[3] if len(ent) > 3 else 1
             if at >= len(r) or r[at] == "panic":
                 fails.append({"case": i, "confirmed": True, "reason": "update or observation panicked"})
                 break
             n += 1
             arr, grad = r[at][0], r[at][1]
-            if arr[1][0] != 1 or list(arr[1][1:]) != list(dims) or list(arr[2]) != list(vals) or grad[0] != 3:
+            if arr[1][0] != flag or list(arr[1][1:]) != list(dims) or list(arr[2]) != list(vals) or grad[0] != 3:
                 fails.append({"case": i, "confirmed": True,
                               "reason": "parameter observed at instruction %d is %s with gradient %s; the update "
-                                        "rule gives tracked dims %s values %s and no gradient"
-                                        % (at, arr, grad, dims, vals)})
+                                        "rule gives tracking flag %d, dims %s values %s and no gradient"
+                                        % (at, arr, grad, flag, dims, vals)})
                 break
     return fails, n
 
